@@ -98,9 +98,15 @@ NOTSAN static long futex(int *addr, int op, int val)
     return syscall(SYS_futex, addr, op, val, nullptr, nullptr, 0);
 }
 
-static char hook_code(const char *name)
-{
-    static const struct { const char *n; char c; } tab[] = {
+// Round 3b: the point NAMES are the contract between library and harness, and a harmless change of the library may add,
+// rename, move or remove a point.  (1) A point whose name is not in this table is IGNORED by the scheduler (the thread
+// does not park, no token, no schedule digit is consumed).  (2) Which of the known points the compiled library really
+// has is PROBED before main(): the pre-main object below walks through every library call once (my_t < 0: nothing
+// parks) and igris_verif_point records the names it is passed.  A case whose programs need a point that was not seen
+// is generated as `x <case>`: it is still run on the real code under ThreadSanitizer and the watchdogs, but its compared
+// result is the constant `oracle-only` (the driver prints the same) and it carries the tag `point-absent`; the
+// trace-derived oracle clauses (they are built from the points) are not judged for it.
+static const struct { const char *n; char c; } HOOKS[] = {
         {"syslock.lock", 'L'}, {"syslock.unlock", 'U'}, {"syslock.save", 'S'}, {"syslock.restore", 'R'},
         {"wait.enqueue", 'q'}, {"event.wait.lock", 'w'}, {"event.wait.cv", 'c'}, {"event.wait.unlock", 'u'},
         {"wait.return", 'r'}, {"unwait.unlink", 'k'}, {"event.signal.lock", 's'}, {"event.signal.unlock", 't'},
@@ -108,10 +114,20 @@ static char hook_code(const char *name)
         {"sq.push.post", 'p'}, {"sq.pop.post", 'g'}, {"sq.size.post", 'z'},
         {"event.twait.lock", 'd'}, {"event.twait.cv", 'e'}, {"event.twait.unlock", 'f'},
         {"event.reset.lock", 'x'}, {"event.reset.unlock", 'y'}};
-    for (auto &e : tab)
-        if (!strcmp(e.n, name))
-            return e.c;
-    return '?';
+enum { NHOOKS = sizeof(HOOKS) / sizeof(HOOKS[0]) };
+static unsigned points_seen = 0;   // bit i: HOOKS[i].n was passed at least once by the pre-main walk (atomic: two threads)
+static unsigned unknown_points = 0; // calls with a name that is not in the table (ignored)
+static int hook_index(const char *name)
+{
+    for (int i = 0; i < NHOOKS; i++)
+        if (!strcmp(HOOKS[i].n, name))
+            return i;
+    return -1;
+}
+static bool point_present(const char *name)
+{
+    int i = hook_index(name);
+    return i >= 0 && (__atomic_load_n(&points_seen, __ATOMIC_RELAXED) >> i & 1);
 }
 
 NOTSAN static void park(int t, char code, const void *obj, int cnt)
@@ -179,9 +195,16 @@ NOTSAN static void park(int t, char code, const void *obj, int cnt)
 
 extern "C" void igris_verif_point(const char *name, const void *obj)
 {
+    int i = hook_index(name);
     if (my_t < 0)
+    {
+        if (i >= 0) __atomic_fetch_or(&points_seen, 1u << i, __ATOMIC_RELAXED);
+        else __atomic_fetch_add(&unknown_points, 1u, __ATOMIC_RELAXED);
         return;
-    park(my_t, hook_code(name), obj, syslock_counter());
+    }
+    if (i < 0)
+        return; // unknown point name: ignored by the scheduler
+    park(my_t, HOOKS[i].c, obj, syslock_counter());
 }
 
 NOTSAN static void mark_done(int t)
@@ -235,7 +258,10 @@ struct EvMirror // layout of igris::event (its members are private)
     std::mutex m;
     std::condition_variable c;
 };
-static_assert(sizeof(EvMirror) == sizeof(igris::event), "igris::event layout changed");
+// round 3b: NOT a static_assert any more (a harmless change of the private members must not break the build): when the
+// layout differs the spurious-return injector and the flag peek are switched off and every case is generated as
+// `x <case>` (oracle-only, tag `layout-absent`)
+static constexpr bool ev_mirror_ok = sizeof(EvMirror) == sizeof(igris::event) && alignof(EvMirror) == alignof(igris::event);
 typedef int (*cond_fn)(pthread_cond_t *);
 static cond_fn real_broadcast = nullptr;
 static void init_real_broadcast()
@@ -274,7 +300,7 @@ NOTSAN static bool asleep_on_primitive(int t)
     unsigned long lo = (unsigned long)s.obj;
     if (a0 < lo || a0 >= lo + sz)
         return false;
-    if (s.nocv && a0 >= lo + offsetof(EvMirror, c))
+    if (s.nocv && ev_mirror_ok && a0 >= lo + offsetof(EvMirror, c))
         return false; // a zero time-out never sleeps in the condition variable (it may be seen inside futex() on its way out)
     snprintf(path, sizeof path, "/proc/self/task/%d/stat", s.ktid);
     fd = open(path, O_RDONLY);
@@ -289,7 +315,7 @@ NOTSAN static bool asleep_on_primitive(int t)
     return p && p[1] == ' ' && p[2] == 'S';
 }
 
-NOTSAN static bool mirror_flag(const void *e) { return ((const EvMirror *)e)->flag; }
+NOTSAN static bool mirror_flag(const void *e) { return ev_mirror_ok && ((const EvMirror *)e)->flag; }
 // address the thread sleeps on in futex(), 0 if it is not in futex()
 NOTSAN static unsigned long futex_addr(int t)
 {
@@ -311,7 +337,7 @@ NOTSAN static unsigned long futex_addr(int t)
 // asleep inside the condition variable of its own event (not on the event's mutex)
 NOTSAN static bool asleep_in_cv(int t)
 {
-    if (__atomic_load_n(&slot[t].st, __ATOMIC_ACQUIRE) != RUNNING || (slot[t].hook != 'c' && slot[t].hook != 'e') || !asleep_on_primitive(t))
+    if (!ev_mirror_ok || __atomic_load_n(&slot[t].st, __ATOMIC_ACQUIRE) != RUNNING || (slot[t].hook != 'c' && slot[t].hook != 'e') || !asleep_on_primitive(t))
         return false;
     const EvMirror *m = (const EvMirror *)slot[t].obj;
     unsigned long a = futex_addr(t), lo = (unsigned long)&m->c;
@@ -478,6 +504,10 @@ static std::string oracle_text()
 // what it saw; op `p premain` reports it later.  The library's own statics
 // (recursive mutex, thread_local count) must be usable at that time.
 // ---------------------------------------------------------------------------
+// field names / widths the property does not fix: optional, reported as TAGS of the op `k consts`
+template <class T> static long save_count_of(const T &s) { if constexpr (requires { s.count; }) return (long)s.count; else return 1; }
+template <class T> static size_t save_count_size() { if constexpr (requires(T s) { s.count; }) return sizeof(T::count); else return 0; }
+template <class T> static size_t future_size() { if constexpr (requires(T s) { s.future; }) return sizeof(T::future); else return 0; }
 static sigjmp_buf premain_jb;
 static void premain_segv(int) { siglongjmp(premain_jb, 1); }
 struct PreMain
@@ -531,12 +561,13 @@ struct PreMain
         igris::event ev;
         int s1 = ev.signal(), i1 = ev.isset();
         ev.wait();
+        (void)ev.wait(std::chrono::seconds(0)); // the event is set: returns at once (walks through the event.twait.* points for the probe)
         int r1 = ev.reset(), i2 = ev.isset();
         igris::semaphore sm(1);
         sm.wait(); int v0 = sm.getvalue();
         sm.post(); int v1 = sm.getvalue();
         snprintf(text, sizeof text, "premain lock=%d,%d,%d,%d,%d save=%d fut=%ld wq=%d q=%ld,%ld ev=%d,%d,%d,%d sem=%d,%d",
-                 a, b, c2, d, e, (int)sv.count, (long)(intptr_t)fut, (int)head.size(), g, z, s1, i1, r1, i2, v0, v1);
+                 a, b, c2, d, e, (int)save_count_of(sv), (long)(intptr_t)fut, (int)head.size(), g, z, s1, i1, r1, i2, v0, v1);
     }
 };
 static PreMain premain __attribute__((init_priority(101)));
@@ -548,16 +579,28 @@ struct SqMirror // layout of igris::safe_queue<long> (its members are private)
     std::queue<long> queue;
     igris::semaphore sem;
 };
-static_assert(sizeof(SqMirror) == sizeof(igris::safe_queue<long>), "igris::safe_queue layout changed");
+static constexpr bool sq_mirror_ok = sizeof(SqMirror) == sizeof(igris::safe_queue<long>) && alignof(SqMirror) == alignof(igris::safe_queue<long>);
 static std::string consts_text()
 {
+    // compared result: only what the property fixes - the first operation on a fresh safe_queue goes through (its
+    // semaphore starts free; model: init.sem = 1) and the lock count can go negative-free through 0..9 (signed or not is a
+    // tag).  Round 3b: the widths of the private counters, the field names and the semaphore's exact initial value
+    // read through the layout mirror are internals: TAGS (consts_tags), not compared.
     igris::safe_queue<long> q;
-    int sem0 = ((SqMirror *)&q)->sem.getvalue(); // initial value of safe_queue's semaphore (model: init.sem = 1)
-    syslock_save_pair sp = {0, 0};
-    waiter wt = {};
+    q.push(1);
+    int free0 = (q.size() == 1);
     char b[200];
-    snprintf(b, sizeof b, "consts sem0=%d counter=%zu savecount=%zu future=%zu signed=%d", sem0, sizeof(decltype(syslock_counter())),
-             sizeof(sp.count), sizeof(wt.future), (int)std::is_signed<decltype(syslock_counter())>::value);
+    snprintf(b, sizeof b, "consts sem0=%d", free0);
+    return b;
+}
+static std::string consts_tags()
+{
+    igris::safe_queue<long> q;
+    char b[200];
+    snprintf(b, sizeof b, "consts,sem0-mirror=%d,counter=%zu,savecount=%zu,future=%zu,signed=%d,unknown-points=%u,points-seen=%x",
+             sq_mirror_ok ? ((SqMirror *)&q)->sem.getvalue() : -1, sizeof(decltype(syslock_counter())),
+             save_count_size<syslock_save_pair>(), future_size<waiter>(), (int)std::is_signed<decltype(syslock_counter())>::value,
+             __atomic_load_n(&unknown_points, __ATOMIC_RELAXED), __atomic_load_n(&points_seen, __ATOMIC_RELAXED));
     return b;
 }
 
@@ -725,7 +768,7 @@ static void run_case(const std::vector<std::string> &w, hv::out &o)
     if (w.size() == 2 && w[0] == "k")
     {
         o.result = consts_text();
-        o.tag("consts");
+        o.tag(consts_tags().c_str());
         return;
     }
     Case &c = *new Case(); // leaked on purpose when threads stay blocked
@@ -1332,7 +1375,23 @@ static void worker_loop(int in_fd)
         while (!l.empty() && (l.back() == '\n' || l.back() == '\r'))
             l.pop_back();
         hv::out o;
-        run_case(hv::words(l), o);
+        std::vector<std::string> ws = hv::words(l);
+        if (!ws.empty() && ws[0] == "x")
+        {
+            // degraded case (a point its programs need is absent / the event layout mirror does not fit): run it, let
+            // ThreadSanitizer, the crash handling and the watchdogs judge; the trace-derived clauses are not judged
+            ws.erase(ws.begin());
+            run_case(ws, o);
+            o.result = "oracle-only";
+            if (o.oracle != "ok" && o.oracle.find("watchdog") == std::string::npos)
+            {
+                o.oracle = "ok";
+                o.tag("oracle-degraded");
+            }
+            o.tag(ev_mirror_ok ? "point-absent" : "layout-absent");
+        }
+        else
+            run_case(ws, o);
         if (worker_must_exit)
             (void)!write(1, "@@X\n", 4);
         o.emit();
@@ -1381,13 +1440,13 @@ static void stop_worker(Worker &w, bool kill_it)
     w.pid = -1;
 }
 
-static int supervise()
+static int supervise_lines(const std::vector<std::string> &lines, size_t first, size_t stride)
 {
     signal(SIGPIPE, SIG_IGN);
     Worker w;
-    std::string line;
-    while (std::getline(std::cin, line))
+    for (size_t li = first; li < lines.size(); li += stride)
     {
+        const std::string &line = lines[li];
         if (w.pid < 0)
             start_worker(w);
         std::string msg = line + "\n";
@@ -1483,476 +1542,96 @@ static int supervise()
     return 0;
 }
 
-// ---------------------------------------------------------------------------
-// generator
-// ---------------------------------------------------------------------------
-static int steps_of(const std::string &tok, int waiters)
+// Round 3b: the cases are independent of each other (every case has its own threads, queue, lock history; a worker is
+// replaced at arbitrary points anyway), so `run` spreads them over K lanes = K supervisor processes, each with its own
+// forked worker, lane j taking the lines j, j+K, j+2K, ...  Every lane writes its result lines into an anonymous memory
+// file; the parent prints them in the original order.  C20_LANES=1 gives the old single-lane behaviour.
+static int supervise()
 {
-    switch (tok[0])
+    std::vector<std::string> lines;
+    std::string line;
+    while (std::getline(std::cin, line))
+        lines.push_back(line);
+    int K = lines.size() <= 20000 ? 8 : 4; // the thorough tier already runs several seeds side by side
+    if (const char *e = getenv("C20_LANES")) K = atoi(e);
+    if (K < 1) K = 1;
+    if (K > 16) K = 16;
+    if (lines.size() < (size_t)(4 * K)) K = 1;
+    if (K == 1)
+        return supervise_lines(lines, 0, 1);
+    std::vector<int> fds(K);
+    std::vector<pid_t> pids(K);
+    fflush(stdout);
+    for (int j = 0; j < K; j++)
     {
-    case 'L': case 'U': case 'S': case 'R': return 1;
-    case 'W': return 7;
-    case 'O': return 6;
-    case 'A': return 2 + 4 * waiters;
-    case 'P': case 'G': case 'Z': return 2;
-    case 'E': case 'T': case 'N': return 3;
-    case 'C': return 2;
-    case 'I': case 'w': case 'p': case 'y': case 'v': return 1;
+        fds[j] = (int)syscall(SYS_memfd_create, "c20lane", 0);
+        if (fds[j] < 0) { perror("memfd_create"); return 3; }
+        pids[j] = fork();
+        if (pids[j] == 0)
+        {
+            dup2(fds[j], 1);
+            supervise_lines(lines, (size_t)j, (size_t)K);
+            fflush(stdout);
+            syscall(SYS_exit_group, 0);
+        }
     }
+    std::vector<std::vector<std::string>> outs(K);
+    for (int j = 0; j < K; j++)
+    {
+        int st;
+        waitpid(pids[j], &st, 0);
+        lseek(fds[j], 0, SEEK_SET);
+        std::string all;
+        char buf[65536];
+        ssize_t k;
+        while ((k = read(fds[j], buf, sizeof buf)) > 0) all.append(buf, k);
+        close(fds[j]);
+        size_t pos = 0, nl;
+        while ((nl = all.find('\n', pos)) != std::string::npos) { outs[j].push_back(all.substr(pos, nl - pos)); pos = nl + 1; }
+    }
+    for (size_t i = 0; i < lines.size(); i++)
+    {
+        size_t j = i % K, k = i / K;
+        if (k < outs[j].size()) puts(outs[j][k].c_str());
+        else printf("LANE\tFAIL the supervisor lane %zu ended before this case\t\n", j);
+    }
+    fflush(stdout);
     return 0;
 }
-static std::vector<std::string> split(const std::string &s, char d)
-{
-    std::vector<std::string> r;
-    std::string cur;
-    for (char ch : s + std::string(1, d))
-        if (ch == d) { r.push_back(cur); cur.clear(); }
-        else cur.push_back(ch);
-    return r;
-}
-static std::vector<int> step_counts(const std::string &progs)
-{
-    auto ps = split(progs, '/');
-    int waiters = 0;
-    for (auto &p : ps) for (auto &t : split(p, ',')) if (!t.empty() && t[0] == 'W') waiters++;
-    std::vector<int> r;
-    for (auto &p : ps)
-    {
-        int k = 0;
-        for (auto &t : split(p, ',')) if (!t.empty() && t != "-") k += steps_of(t, waiters);
-        r.push_back(k);
-    }
-    return r;
-}
 
-static const char *g_kind = "c"; // "e": the programs run on the shared event / semaphore
-static void emit_case(const std::string &progs, const std::string &init, const std::string &sched)
+void c20_gen(hv::rng &r, const std::string &tier); // harness/C20_gen.cpp
+// does the compiled library have every point the programs of this case need?  (used by the generator)
+bool c20_case_degraded(const char *kind, const std::string &progs)
 {
-    printf("%s %s %s %s\n", g_kind, progs.c_str(), init.empty() ? "-" : init.c_str(), sched.empty() ? "-" : sched.c_str());
-}
-
-// all interleavings (multiset permutations) of the threads' points
-static void all_perms(const std::string &progs, const std::string &init, std::vector<int> left, std::string &cur, long &budget)
-{
-    bool any = false;
-    for (size_t t = 0; t < left.size(); t++)
-        if (left[t] > 0)
+    if (!ev_mirror_ok)
+        return true;
+    auto need = [&](std::initializer_list<const char *> names) { for (auto n : names) if (!point_present(n)) return true; return false; };
+    bool ecase = kind[0] == 'e';
+    for (size_t i = 0; i < progs.size(); i++)
+    {
+        char k = progs[i];
+        if (i && progs[i - 1] != '/' && progs[i - 1] != ',') continue; // only the op letters
+        bool miss = false;
+        switch (k)
         {
-            any = true;
-            left[t]--;
-            cur.push_back('0' + t);
-            all_perms(progs, init, left, cur, budget);
-            cur.pop_back();
-            left[t]++;
-            if (budget <= 0) return;
+        case 'L': miss = need({"syslock.lock"}); break;
+        case 'U': miss = need({"syslock.unlock"}); break;
+        case 'S': miss = need({"syslock.save"}); break;
+        case 'R': miss = need({"syslock.restore"}); break;
+        case 'W': miss = need({"syslock.lock", "syslock.unlock", "wait.enqueue", "event.wait.lock", "event.wait.cv", "event.wait.unlock", "wait.return"}); break;
+        case 'O': case 'A': miss = need({"syslock.lock", "syslock.unlock", "unwait.unlink", "event.signal.lock", "event.signal.notify", "event.signal.unlock"}); break;
+        case 'P': miss = need({"sq.push.wait", "sq.push.post"}); break;
+        case 'G': miss = need({"sq.pop.wait", "sq.pop.post"}); break;
+        case 'Z': miss = need({"sq.size.wait", "sq.size.post"}); break;
+        case 'E': miss = need({"event.wait.lock", "event.wait.cv", "event.wait.unlock"}); break;
+        case 'T': miss = need({"event.twait.lock", "event.twait.cv", "event.twait.unlock"}); break;
+        case 'N': miss = need({"event.signal.lock", "event.signal.notify", "event.signal.unlock"}); break;
+        case 'C': miss = ecase && need({"event.reset.lock", "event.reset.unlock"}); break;
+        default: break;
         }
-    if (!any && budget > 0)
-    {
-        emit_case(progs, init, cur);
-        budget--;
+        if (miss) return true;
     }
-}
-static void exhaustive(const std::string &progs, const std::string &init, long budget = 1000000)
-{
-    std::string cur;
-    all_perms(progs, init, step_counts(progs), cur, budget);
-}
-
-// random schedule: bursts (few context switches) or uniform
-static std::string rand_sched(hv::rng &r, const std::vector<int> &cnt, int mode)
-{
-    std::vector<int> left = cnt;
-    int total = 0;
-    for (int x : left) total += x;
-    std::string s;
-    int n = (int)cnt.size();
-    int cur = (int)r.below(n);
-    while (total > 0)
-    {
-        if (mode == 0) cur = (int)r.below(n);
-        else if (r.chance(mode == 1 ? 25 : 8)) cur = (int)r.below(n);
-        if (left[cur] == 0)
-        {
-            // sometimes name a finished/blocked thread on purpose
-            if (r.chance(10)) s.push_back('0' + cur);
-            cur = (int)r.below(n);
-            continue;
-        }
-        left[cur]--; total--;
-        s.push_back('0' + cur);
-    }
-    return s;
-}
-
-static std::string rand_prog_set(hv::rng &r, std::string &init)
-{
-    int n = (int)r.range(2, 4);
-    int shape = (int)r.below(6);
-    std::vector<std::string> p(n);
-    long fut = 10, item = 100;
-    init.clear();
-    auto add = [&](int t, const std::string &s) { p[t] += (p[t].empty() ? "" : ",") + s; };
-    if (shape == 0)
-    { // lock nests
-        for (int t = 0; t < n; t++)
-        {
-            int d = (int)r.range(1, 3);
-            std::string s;
-            for (int i = 0; i < d; i++) add(t, "L");
-            if (r.chance(40)) { add(t, "S"); add(t, "R"); }
-            for (int i = 0; i < d; i++) add(t, "U");
-            if (r.chance(30)) { add(t, "L"); add(t, "U"); }
-        }
-    }
-    else if (shape == 1 || shape == 2)
-    { // waiters and wakers
-        int nw = (int)r.range(1, n - 1);
-        for (int t = 0; t < nw; t++) add(t, std::string("W") + (r.chance(30) ? "1" : "0"));
-        int wakes = 0;
-        for (int t = nw; t < n; t++)
-        {
-            if (r.chance(35)) { add(t, "A" + std::to_string(fut++)); wakes += nw; }
-            else { int k = (int)r.range(1, 2); for (int i = 0; i < k; i++) { add(t, "O" + std::to_string(fut++)); wakes++; } }
-        }
-        // the last waker makes sure everybody can be woken
-        add(n - 1, "A" + std::to_string(fut++));
-        if (r.chance(30)) add(n - 1, "A" + std::to_string(fut++));
-        (void)wakes;
-    }
-    else if (shape == 3 || shape == 4)
-    { // queue producers / consumers
-        int ninit = (int)r.range(0, 3), pops = 0;
-        for (int i = 0; i < ninit; i++) init += (init.empty() ? "" : ",") + std::to_string(item++);
-        for (int t = 0; t < n; t++)
-        {
-            int k = (int)r.range(1, 3);
-            for (int i = 0; i < k; i++)
-            {
-                int c = (int)r.below(10);
-                if (c < 5) add(t, "P" + std::to_string(item++));
-                else if (c < 8 && pops < ninit) { add(t, "G"); pops++; }
-                else add(t, "Z");
-            }
-        }
-    }
-    else
-    { // mixed
-        int ninit = 2, pops = 0;
-        init = std::to_string(item) + "," + std::to_string(item + 1); item += 2;
-        add(0, "W0");
-        for (int t = 1; t < n; t++)
-        {
-            int k = (int)r.range(1, 3);
-            for (int i = 0; i < k; i++)
-            {
-                int c = (int)r.below(10);
-                if (c < 3) add(t, "P" + std::to_string(item++));
-                else if (c < 5 && pops < ninit) { add(t, "G"); pops++; }
-                else if (c < 7) { add(t, "L"); add(t, "U"); }
-                else add(t, "O" + std::to_string(fut++));
-            }
-        }
-        add(n - 1, "A" + std::to_string(fut++));
-    }
-    std::string s;
-    for (int t = 0; t < n; t++) s += (t ? "/" : "") + (p[t].empty() ? std::string("-") : p[t]);
-    return s;
-}
-
-// threads of a program set that contain a wait op
-static std::vector<int> waiter_threads(const std::string &progs)
-{
-    std::vector<int> w;
-    auto ps = split(progs, '/');
-    for (size_t t = 0; t < ps.size(); t++)
-        if (ps[t].find('W') != std::string::npos || ps[t].find('E') != std::string::npos || ps[t].find('T') != std::string::npos)
-            w.push_back((int)t);
-    return w;
-}
-// insert k spurious-return letters (for waiter threads) at random positions
-static std::string with_spurs(hv::rng &r, std::string sched, const std::vector<int> &w, int k)
-{
-    if (w.empty())
-        return sched;
-    for (int i = 0; i < k; i++)
-    {
-        size_t pos = (size_t)r.below(sched.size() + 1);
-        sched.insert(sched.begin() + pos, (char)('a' + w[r.below(w.size())]));
-    }
-    return sched;
-}
-// every interleaving of a program set, each with spurious returns inserted
-static void all_perms_spur(hv::rng &r, const std::string &progs, std::vector<int> left, std::string &cur, long &count, int every, int variants)
-{
-    bool any = false;
-    for (size_t t = 0; t < left.size(); t++)
-        if (left[t] > 0)
-        {
-            any = true;
-            left[t]--;
-            cur.push_back('0' + t);
-            all_perms_spur(r, progs, left, cur, count, every, variants);
-            cur.pop_back();
-            left[t]++;
-        }
-    if (!any && (count++ % every) == 0)
-        for (int v = 0; v < variants; v++)
-            emit_case(progs, "", with_spurs(r, cur, waiter_threads(progs), 1 + (int)r.below(2)));
-}
-
-// ---------------------------------------------------------------------------
-// round 3 generators
-// ---------------------------------------------------------------------------
-static void gen3(hv::rng &r, bool thorough)
-{
-    // --- `u` cases: unwait_all with 2-3 waiters, the schedule is taken literally
-    // also INSIDE the unwait_all call (the members run while the waker is between
-    // two of its steps; a signalled waiter returns and destroys its stack frame -
-    // waiter, list node, event - while the waker goes on to the next waiter).
-    // Only order-independent output is compared; the oracles and TSan judge.
-    printf("p premain\n");
-    printf("k consts\n");
-    // --- the "prioritised one" clause: EVERY combination of priorities and arrival
-    // orders of 2..4 waiters; the waiters enqueue in the given order (3 points each:
-    // lock, enqueue, unlock), then one thread calls unwait_one k times with distinct
-    // futures: who got which future is the service order (judged by the reference deque)
-    for (int k = 2; k <= 4; k++)
-    {
-        std::vector<int> perm;
-        for (int t = 0; t < k; t++) perm.push_back(t);
-        long idx = 0;
-        do
-        {
-            for (int mask = 0; mask < (1 << k); mask++, idx++)
-            {
-                if (k == 4 && !thorough && idx % 6 != 0) continue;
-                std::string progs, sc;
-                for (int t = 0; t < k; t++) progs += std::string(t ? "/" : "") + "W" + ((mask >> t) & 1 ? "1" : "0");
-                progs += "/";
-                for (int i = 0; i < k; i++) progs += std::string(i ? "," : "") + "O" + std::to_string(i + 1);
-                for (int t : perm) sc += std::string(3, '0' + t);
-                emit_case(progs, "", sc);
-            }
-        } while (std::next_permutation(perm.begin(), perm.end()));
-    }
-    // repeated waits of ONE thread with changed priority between the calls
-    for (const char *pg : {"W1,W0/W0,W1/O1,O2,O3,A4", "W0,W1,W0/W1/O1,O2,A3,A4"})
-        for (int k = 0; k < (thorough ? 400 : 30); k++)
-            emit_case(pg, "", rand_sched(r, step_counts(pg), (int)r.below(3)));
-    // nesting depth 9 = the deepest the library admits (assert(count < 10)), a contender at depth 9, 5, 1
-    {
-        std::string nest;
-        for (int i = 0; i < 9; i++) nest += "L,";
-        for (int i = 0; i < 9; i++) nest += std::string("U") + (i < 8 ? "," : "");
-        emit_case(nest + "/L,U", "", "0000000001000010000101");
-        emit_case("L,L,L,L,L,L,L,L,L,S,R,U,U,U,U,U,U,U,U,U/L,U", "", "00000000010101");
-        for (int k = 0; k < (thorough ? 100 : 6); k++)
-            emit_case(nest + "/L,U", "", rand_sched(r, step_counts(nest + "/L,U"), (int)r.below(3)));
-    }
-    g_kind = "u";
-    for (const char *pg : {"W0/W0/A9", "W0/W0/W0/A9", "W1/W0/W1/A9"})
-    {
-        int nw = (int)split(pg, '/').size() - 1;
-        // every waiter asleep; after each step of the waker every waiter gets two grants
-        // (event.wait.unlock, wait.return: it leaves and destroys its frame at once)
-        std::string park, all;
-        for (int t = 0; t < nw; t++) { park += std::string(5, '0' + t); all += std::string(2, '0' + t); }
-        std::string sc = park, wk(1, '0' + nw);
-        for (int k = 0; k < 2 + 4 * nw; k++) sc += wk + all;
-        emit_case(pg, "", sc);
-        // the same with the waiters only enqueued (not yet inside event.wait): the wake races with the park
-        std::string enq;
-        for (int t = 0; t < nw; t++) enq += std::string(3, '0' + t);
-        sc = enq;
-        for (int k = 0; k < 2 + 4 * nw; k++) sc += wk + all;
-        emit_case(pg, "", sc);
-        auto cnt = step_counts(pg);
-        auto wt = waiter_threads(pg);
-        for (int k = 0; k < (thorough ? 600 : 40); k++)
-        {
-            // all waiters enqueued first (3 or 5 steps each, random thread order), then anything
-            std::vector<int> left = cnt;
-            std::string pre;
-            std::vector<int> order;
-            for (int t = 0; t < nw; t++) order.push_back(t);
-            for (int i = nw - 1; i > 0; i--) std::swap(order[i], order[r.below(i + 1)]);
-            for (int t : order) { int d = r.chance(50) ? 3 : 5; pre += std::string(d, '0' + t); left[t] -= d; }
-            std::string rest = rand_sched(r, left, (int)r.below(3));
-            if (k % 2)
-                rest = with_spurs(r, rest, wt, 1 + (int)r.below(3));
-            emit_case(pg, "", pre + rest);
-        }
-    }
-    g_kind = "c";
-}
-
-static void gen(hv::rng &r, const std::string &tier)
-{
-    bool thorough = tier == "thorough";
-    // --- spurious returns of the condition-variable wait (schedule letters a..f)
-    for (int k = 0; k <= 6; k++) // the waiter sleeps; one spurious return between any two steps of the waker
-        emit_case("W0/O5", "", "00000" + std::string(k, '1') + "a" + std::string(6 - k, '1'));
-    emit_case("W0/O5", "", "00000aa1a1a1a1a1a1a");       // a spurious return after every step
-    emit_case("W0/O5", "", "0000a0a1111110");            // not yet / no longer asleep: no effect
-    emit_case("W0/O5", "", "00000a");                    // only a spurious return, then the rest runs
-    emit_case("W0/W0/A9", "", "0000011111ab2b2a2222b2a222");
-    emit_case("W0/W1/O5,O6", "", "0000011111ba2a2b22222a22b2");
-    emit_case("W0/W0/W0/A9", "", "000001111122222abc3c3b3a3333");
-    emit_case("W0,W0/O5,O6", "", "00000a111111a00000a111111");
-    {
-        std::string cur;
-        long count = 0;
-        all_perms_spur(r, "W0/O5", step_counts("W0/O5"), cur, count, thorough ? 1 : 4, thorough ? 2 : 1);
-    }
-    // directed
-    emit_case("L,U", "", "00");
-    emit_case("L,L,U,U/L,U", "", "0010111");          // re-entry, blocked attempt, hand-off at depth 0 only
-    emit_case("L,L,S,R,U,U/L,U", "", "00101011");
-    emit_case("W0/O5", "", "0001111110000");          // wake races with the park: signal before event.wait
-    emit_case("W0/O5", "", "0000011111100");          // waiter asleep in the condition variable
-    emit_case("W0/O5", "", "00000111110101");         // waiter leaves while the waker is still in signal()
-    emit_case("W0/O5", "", "1100000001");             // unwait before anybody waits: nobody is woken -> deadlock
-    emit_case("W0/W0/O5,O6", "", "");
-    emit_case("W0/W1/O5,O6", "", "000111");           // priority waiter goes first
-    emit_case("W0/W0/W0/A9", "", "000111222");
-    emit_case("P1,P2/G,G", "7,8", "");
-    emit_case("P1/P2/G,Z", "7", "001122");
-    // exhaustive interleavings of small programs
-    exhaustive("L,U/L,U", "");
-    exhaustive("L,L,U,U/L,U", "");
-    exhaustive("L,S,R,U/L,U", "");
-    exhaustive("L,U/L,U/L,U", "");
-    exhaustive("P1/G", "7");
-    exhaustive("P1,P2/G,G", "7,8");
-    exhaustive("P1/P2/G", "7");
-    exhaustive("P1/Z/G", "7");
-    exhaustive("W0/O5", "");                          // 1716 schedules
-    if (thorough)
-    {
-        exhaustive("W1/A5", "");
-        exhaustive("W0/L,U,O5", "");
-        exhaustive("L,L,S,R,U,U/L,L,U,U", "");
-        exhaustive("P1,G/P2,G/Z", "7");
-    }
-    // --- the shared event (wait / wait(timeout) / signal / reset / isset) and semaphore
-    g_kind = "e";
-    emit_case("E/N", "", "0011101");
-    emit_case("E/N/C", "", "0011a12");
-    emit_case("T0/N,C", "", "000111111");
-    emit_case("T1,C/N/T0", "", "0022200a111");
-    emit_case("E,I/N,I", "", "00a11a1a");
-    emit_case("w,v,p/y,v,p,v", "", "0001111");
-    emit_case("w,p/w,p", "", "0101");                 // binary semaphore as a mutex: the second wait blocks until the post
-    emit_case("I/N", "", "1110");                     // isset after a complete signal of another thread
-    exhaustive("E/N", "");
-    exhaustive("T0/N", "");
-    exhaustive("T1/N", "");
-    exhaustive("E/N,C", "");
-    exhaustive("I/N,C", "");
-    if (thorough)
-    {
-        exhaustive("E/N/C", "");
-        exhaustive("w,p/w,p/y,v,p", "");
-    }
-    else
-        for (const char *pg : {"E/N/C", "w,p/w,p/y,v,p"})
-            for (int k = 0; k < 60; k++)
-                emit_case(pg, "", rand_sched(r, step_counts(pg), (int)r.below(3)));
-    {
-        std::string cur;
-        long count = 0;
-        all_perms_spur(r, "E/N", step_counts("E/N"), cur, count, 1, 2);
-        count = 0;
-        all_perms_spur(r, "T1/N,C,N", step_counts("T1/N,C,N"), cur, count, thorough ? 1 : 3, 1);
-    }
-    for (int i = 0; i < (thorough ? 1500 : 150); i++)
-    {
-        int n = (int)r.range(2, 4);
-        std::vector<std::string> p(n);
-        auto add = [&](int t, const std::string &x) { p[t] += (p[t].empty() ? "" : ",") + x; };
-        for (int t = 0; t < n; t++)
-        {
-            int k = (int)r.range(1, 3);
-            for (int j = 0; j < k; j++)
-            {
-                int c = (int)r.below(12);
-                if (c < 2) add(t, "E");
-                else if (c < 3) add(t, "T0");
-                else if (c < 4) add(t, "T1");
-                else if (c < 6) add(t, "N");
-                else if (c < 7) add(t, "C");
-                else if (c < 8) add(t, "I");
-                else if (c < 9) { add(t, "w"); add(t, "p"); }
-                else if (c < 10) add(t, "y");
-                else if (c < 11) add(t, "v");
-                else add(t, "p");
-            }
-        }
-        add(n - 1, "N"); // the last thread sets the event: waiters can finish
-        std::string progs;
-        for (int t = 0; t < n; t++) progs += (t ? "/" : "") + p[t];
-        auto cnt = step_counts(progs);
-        auto wt = waiter_threads(progs);
-        for (int k = 0; k < 3; k++)
-        {
-            std::string sc = rand_sched(r, cnt, (int)r.below(3));
-            if (!wt.empty() && r.chance(50))
-                sc = with_spurs(r, sc, wt, 1 + (int)r.below(3));
-            emit_case(progs, "", sc);
-        }
-    }
-    g_kind = "c";
-    // --- schedules where a mutation could hide
-    exhaustive("L,L,L,S,R,U,U,U/L,U", "");               // depth 3, save/restore in the middle, a contender at every point
-    if (thorough)
-        exhaustive("L,L,L,S,R,U,U,U/L,L,U,U", "");
-    for (const char *pg : {"L,L,L,S,R,U,U,U/L,U/L,L,S,R,U,U", "L,L,L,U,U,U/L,L,L,S,R,U,U,U/L,U"})
-        for (int k = 0; k < (thorough ? 800 : 80); k++)
-            emit_case(pg, "", rand_sched(r, step_counts(pg), (int)r.below(3)));
-    for (const char *pg : {"W0/W0/W0/A9", "W0/W1/W0/A9", "W0/W0/W0/O5,A9"})  // unwait_all with 3 waiters
-    {
-        auto cnt = step_counts(pg);
-        auto wt = waiter_threads(pg);
-        for (int k = 0; k < (thorough ? 1000 : 90); k++)
-        {
-            std::string sc = rand_sched(r, cnt, (int)r.below(3));
-            if (k % 3 == 0)
-                sc = with_spurs(r, sc, wt, 1 + (int)r.below(3));
-            emit_case(pg, "", sc);
-        }
-    }
-    for (int k = 0; k < (thorough ? 1500 : 150); k++)      // two producers + two consumers
-        emit_case("P1,P2/P3,P4/G,G/G,Z,G", "7,8,9,10", rand_sched(r, step_counts("P1,P2/P3,P4/G,G/G,Z,G"), (int)r.below(3)));
-    // random programs, random schedules
-    int nprog = thorough ? 2500 : 220;
-    for (int i = 0; i < nprog; i++)
-    {
-        std::string init, progs = rand_prog_set(r, init);
-        auto cnt = step_counts(progs);
-        int ns = thorough ? 6 : 4;
-        auto wt = waiter_threads(progs);
-        for (int k = 0; k < ns; k++)
-        {
-            std::string sc = rand_sched(r, cnt, (int)r.below(3));
-            if (!wt.empty() && r.chance(50))
-                sc = with_spurs(r, sc, wt, 1 + (int)r.below(3));
-            emit_case(progs, init, sc);
-        }
-    }
-    // the two/three-waiter scenarios with many random schedules
-    for (const char *pg : {"W0/W0/A9", "W0/W1/O5,O6", "W0/W0/O5/O6", "W0/O5/A6", "W0,W0/O5,A6"})
-    {
-        auto cnt = step_counts(pg);
-        auto wt = waiter_threads(pg);
-        for (int k = 0; k < (thorough ? 1500 : 120); k++)
-        {
-            std::string sc = rand_sched(r, cnt, (int)r.below(3));
-            if (k % 2)
-                sc = with_spurs(r, sc, wt, 1 + (int)r.below(3));
-            emit_case(pg, "", sc);
-        }
-    }
-    gen3(r, thorough);
+    return false;
 }
 
 int main(int argc, char **argv)
@@ -1961,7 +1640,12 @@ int main(int argc, char **argv)
     {
         uint64_t seed = argc >= 3 ? strtoull(argv[2], 0, 10) : 1;
         hv::rng r(seed);
-        gen(r, argc >= 4 ? argv[3] : "quick");
+        c20_gen(r, argc >= 4 ? argv[3] : "quick");
+        // round 3b: leave without TSan's exit handler - a race the pre-main walk ran into (it uses the library with a real
+        // second thread, in this process too) must not turn into "generator failed" without a replay; the `run` side
+        // reports it with the op it was given
+        fflush(stdout);
+        syscall(SYS_exit_group, 0);
         return 0;
     }
     if (argc >= 2 && !strcmp(argv[1], "run"))
